@@ -1,7 +1,7 @@
 (** C14 — Equality, ordering and logic obey their algebraic laws on all values.
     Only statements, closed by [exact]; the proofs live in Proofs/ValLaws.v. *)
 From Coq Require Import List ZArith NArith Bool.
-From RRSS Require Import Base.Outcome Base.Chars Base.F64 Exec.Val Exec.Ops Proofs.ValInd Proofs.ValLaws.
+From RRSS Require Import Base.Outcome Base.Chars Base.F64 Exec.Val Exec.Ops Proofs.ValInd Proofs.ValLaws Proofs.FloatExact.
 Import ListNotations.
 
 (** [a is b] = [b is a], for all values whose dictionaries have distinct keys (every value the
@@ -60,6 +60,19 @@ Theorem C14_inc_dec_restores_bool :
   forall b k, (let* v := v_inc (VBool b) k in v_inc v (- k)%Z) = Ok (VBool b).
 Proof. exact inc_dec_restores_bool. Qed.
 
+(** ... and for numbers: every integer of magnitude below 2^53 (these are exactly represented) is restored by
+    the opposite step, and by n knock-downs after n build-ups, as long as the values passed through stay
+    below 2^53.  (Proved with Flocq: f64 addition of integers whose sum is below 2^53 is exact.) *)
+Theorem C14_inc_dec_restores_int :
+  forall a k, (Z.abs a < 2 ^ 53)%Z -> (Z.abs k < 2 ^ 53)%Z -> (Z.abs (a + k) < 2 ^ 53)%Z ->
+  (let* v := v_inc (VNum (f_of_Z a)) k in v_inc v (- k)%Z) = Ok (VNum (f_of_Z a)).
+Proof. exact inc_dec_restores_int. Qed.
+
+Theorem C14_build_knock_restores_int :
+  forall a n, (Z.abs a + Z.of_nat n < 2 ^ 53)%Z ->
+  (let* v := iter_inc n 1 (VNum (f_of_Z a)) in iter_inc n (-1) v) = Ok (VNum (f_of_Z a)).
+Proof. exact build_knock_restores_int. Qed.
+
 Theorem C14_build_knock_restores_bool :
   forall b n, (let* v := iter_inc n 1 (VBool b) in iter_inc n (-1) v) = Ok (VBool b).
 Proof. exact build_knock_restores_bool. Qed.
@@ -76,3 +89,5 @@ Qed.
 Print Assumptions C14_equals_sym.
 Print Assumptions C14_compare_swap.
 Print Assumptions C14_leq_and_geq_is_equals.
+
+Print Assumptions C14_build_knock_restores_int.
